@@ -61,15 +61,24 @@ impl SetL for IpcReceiverSet {
         IpcReceiverSet::new().unwrap()
     }
     fn add(&mut self, r: IpcReceiver<Vec<u8>>) -> u64 {
-        IpcReceiverSet::add(self, r).unwrap()
+        // both ways of adding a member, in turn
+        static TURN: std::sync::atomic::AtomicUsize = std::sync::atomic::AtomicUsize::new(0);
+        if TURN.fetch_add(1, std::sync::atomic::Ordering::SeqCst) % 2 == 0 {
+            IpcReceiverSet::add(self, r).unwrap()
+        } else {
+            IpcReceiverSet::add_opaque(self, r.to_opaque()).unwrap()
+        }
     }
     fn select(&mut self) -> Result<Vec<(u64, Option<Vec<u8>>)>, String> {
         match IpcReceiverSet::select(self) {
             Ok(evs) => Ok(evs
                 .into_iter()
                 .map(|e| match e {
-                    IpcSelectionResult::MessageReceived(rid, m) => (rid, Some(m.to::<Vec<u8>>().unwrap_or_default())),
                     IpcSelectionResult::ChannelClosed(rid) => (rid, None),
+                    other => {
+                        let (rid, m) = other.unwrap();
+                        (rid, Some(m.to::<Vec<u8>>().unwrap_or_default()))
+                    },
                 })
                 .collect()),
             Err(e) => Err(format!("{:?}", e)),
